@@ -360,6 +360,11 @@ def rule_history(ctx):
         has_rights = "Builder::castling_rights(" in chain and "get_last_history" in chain
         has_clock = "Builder::halfmove_clock(" in chain and "builder.halfmove_clock" in chain
         label = "with-ep" if ep else "without-ep"
+        # which record is built depends on nothing but whether the FEN names an en-passant square
+        extra = [(c[0][:70], sorted(map(str, c[1]))) for c in cons if not ("en_passant_file" in c[0] and c[3][0] == "discr" and "as Some" not in c[0])
+                 and not (c[3][0] == "call" and c[3][1] in ("std::option::Option::is_some", "std::option::Option::is_none") and "en_passant_file" in c[0])]
+        ctx.check(not extra, "history:%s:only-the-fen-decides" % label, "the %s record is chosen by `en_passant_file is Some` alone" % label, b.where(bi),
+                  bad_what="whether the synthetic double-push record is built also depends on %s: for some FENs the loaded board and its history disagree about the en-passant file (unmake_move restores it from the record)" % extra)
         ctx.check(has_rights and has_clock, "history:%s:rights-and-clock" % label, "the record carries the parsed castling rights and half-move clock", b.where(bi), bad_what="the %s record lacks castling rights or clock: %s" % (label, chain[:160]))
         if ep:
             flag = "Builder::double_pawn_push(" in chain and "true" not in chain  # constant shown as 1
